@@ -1,1 +1,176 @@
-fn main() {}
+//! Native replay: restores a graph from a plain-data snapshot (or starts from
+//! `empty(cap)`), applies calls of the public API and prints the result and the
+//! snapshot after every call, one JSON object per line. A panic aborts the
+//! process (the profile has panic=abort); the lines printed so far and the
+//! message on stderr tell where.
+use serde_json::{json, Value};
+use sodg::{Hex, Label, Sodg, VerifSnapshot, VerifVertex};
+use std::io::Write;
+
+fn label_from(v: &Value) -> Label {
+    if let Some(c) = v.get("g") {
+        Label::Greek(char::from_u32(c.as_u64().unwrap() as u32).unwrap())
+    } else if let Some(n) = v.get("a") {
+        Label::Alpha(n.as_u64().unwrap() as usize)
+    } else {
+        let mut a = [' '; 8];
+        for (i, c) in v["s"].as_array().unwrap().iter().enumerate() {
+            a[i] = char::from_u32(c.as_u64().unwrap() as u32).unwrap();
+        }
+        Label::Str(a)
+    }
+}
+
+fn label_to(a: &Label) -> Value {
+    match a {
+        Label::Greek(c) => json!({"g": u32::from(*c)}),
+        Label::Alpha(n) => json!({"a": *n}),
+        Label::Str(s) => json!({"s": s.iter().map(|c| u32::from(*c)).collect::<Vec<u32>>()}),
+    }
+}
+
+fn bytes_from(v: &Value) -> Vec<u8> {
+    v.as_array().unwrap().iter().map(|b| b.as_u64().unwrap() as u8).collect()
+}
+
+fn hex_from(v: &Value) -> Hex {
+    let data = bytes_from(&v["data"]);
+    if v["inline"].as_bool().unwrap_or(data.len() <= 8) {
+        let mut a = [0_u8; 8];
+        a[..data.len()].copy_from_slice(&data);
+        if let Some(pad) = v.get("pad") {
+            for (i, b) in bytes_from(pad).iter().enumerate() {
+                if data.len() + i < 8 {
+                    a[data.len() + i] = *b;
+                }
+            }
+        }
+        Hex::Bytes(a, data.len())
+    } else {
+        Hex::Vector(data)
+    }
+}
+
+fn snap_from(v: &Value) -> VerifSnapshot {
+    let vertices = v["vertices"]
+        .as_array()
+        .unwrap()
+        .iter()
+        .map(|x| {
+            if x.is_null() {
+                None
+            } else {
+                Some(VerifVertex {
+                    branch: x["branch"].as_u64().unwrap() as usize,
+                    persistence: x["persistence"].as_u64().unwrap() as u8,
+                    data: bytes_from(&x["data"]),
+                    inline: x["inline"].as_bool().unwrap(),
+                    edges: x["edges"]
+                        .as_array()
+                        .unwrap()
+                        .iter()
+                        .map(|e| (label_from(&e[0]), e[1].as_u64().unwrap() as usize))
+                        .collect(),
+                })
+            }
+        })
+        .collect();
+    VerifSnapshot {
+        vertices,
+        branches: v["branches"]
+            .as_array()
+            .unwrap()
+            .iter()
+            .map(|b| b.as_array().unwrap().iter().map(|m| m.as_u64().unwrap() as usize).collect())
+            .collect(),
+        stores: v["stores"].as_array().unwrap().iter().map(|m| m.as_u64().unwrap() as usize).collect(),
+        next_v: v["next_v"].as_u64().unwrap() as usize,
+    }
+}
+
+fn snap_to(s: &VerifSnapshot) -> Value {
+    json!({
+        "vertices": s.vertices.iter().map(|x| match x {
+            None => Value::Null,
+            Some(p) => json!({
+                "branch": p.branch, "persistence": p.persistence, "data": p.data, "inline": p.inline,
+                "edges": p.edges.iter().map(|(a, to)| json!([label_to(a), to])).collect::<Vec<Value>>(),
+            }),
+        }).collect::<Vec<Value>>(),
+        "branches": s.branches, "stores": s.stores, "next_v": s.next_v,
+    })
+}
+
+fn emit(i: usize, ret: Value, g: &VerifSnapshot) {
+    let out = std::io::stdout();
+    let mut out = out.lock();
+    writeln!(out, "{}", json!({"i": i, "ret": ret, "snap": snap_to(g)})).unwrap();
+    out.flush().unwrap();
+}
+
+fn run<const N: usize>(job: &Value) {
+    let cap = job["cap"].as_u64().unwrap() as usize;
+    let mut g: Sodg<N> = if job["pre"].is_null() {
+        Sodg::empty(cap)
+    } else {
+        Sodg::verif_restore(&snap_from(&job["pre"]))
+    };
+    let mut other: Option<Sodg<N>> = None;
+    emit(0, Value::Null, &g.verif_snapshot());
+    for (k, c) in job["calls"].as_array().unwrap().iter().enumerate() {
+        let op = c["op"].as_str().unwrap();
+        let u = |name: &str| c[name].as_u64().unwrap() as usize;
+        // "on": "clone" applies the call to the clone made earlier
+        let tgt: &mut Sodg<N> = if c["on"].as_str() == Some("clone") { other.as_mut().unwrap() } else { &mut g };
+        let ret = match op {
+            "add" => {
+                tgt.add(u("v"));
+                Value::Null
+            }
+            "bind" => {
+                tgt.bind(u("v1"), u("v2"), label_from(&c["a"]));
+                Value::Null
+            }
+            "put" => {
+                tgt.put(u("v"), &hex_from(&c["d"]));
+                Value::Null
+            }
+            "data" => match tgt.data(u("v")) {
+                Some(h) => json!({"some": h.bytes(), "inline": matches!(h, Hex::Bytes(_, _))}),
+                None => json!("none"),
+            },
+            "kid" => match tgt.kid(u("v"), label_from(&c["a"])) {
+                Some(t) => json!({"some": t}),
+                None => json!("none"),
+            },
+            "kids" => json!(tgt.kids(u("v")).map(|(a, to)| json!([label_to(a), to])).collect::<Vec<Value>>()),
+            "next_id" => json!(tgt.next_id()),
+            "len" => json!(tgt.len()),
+            "is_empty" => json!(tgt.is_empty()),
+            "keys" => json!(tgt.keys()),
+            "clone" => {
+                other = Some(tgt.clone());
+                json!({"clone": snap_to(&other.as_ref().unwrap().verif_snapshot())})
+            }
+            _ => panic!("unknown op {op}"),
+        };
+        let snap = if c["on"].as_str() == Some("clone") {
+            other.as_ref().unwrap().verif_snapshot()
+        } else {
+            g.verif_snapshot()
+        };
+        emit(k + 1, ret, &snap);
+    }
+}
+
+fn main() {
+    let path = std::env::args().nth(1).expect("usage: replay <job.json>");
+    let job: Value = serde_json::from_str(&std::fs::read_to_string(path).unwrap()).unwrap();
+    match job["n"].as_u64().unwrap() {
+        1 => run::<1>(&job),
+        2 => run::<2>(&job),
+        3 => run::<3>(&job),
+        16 => run::<16>(&job),
+        n => panic!("no instantiation for N={n}"),
+    }
+}
